@@ -149,7 +149,7 @@ PROPS = {
     },
     "C11": {
         "lean_modules": ["HotstuffModel.Properties.C11"],
-        "engines": [{"name": "batchmaker"}, {"name": "batchmaker", "features": "benchmark"}],
+        "engines": [{"name": "batchmaker"}, {"name": "batchmaker", "features": "benchmark"}, {"name": "mempoolsync"}],
         "level": "proof",
         "trusted_base": TB_COMMON + [
             "bincode fixed-int LE layout (checked byte-for-byte by the engine, decode direction with the real bincode)",
@@ -266,7 +266,7 @@ PROPS = {
     },
     "C07": {
         "lean_modules": ['HotstuffModel.Properties.C07'],
-        "engines": [{'name': 'netsim'}, {'name': 'cons'}],
+        "engines": [{'name': 'netsim'}, {'name': 'cons'}, {'name': 'syncretry'}],
         "level": "proof",
         "level_text": 'PARTIAL: machine-checked protocol lemmas, and the safety half of convergence (delivery logs of honest nodes are prefixes of one another in every reachable global state: never_diverges); that a reconnected node DOES catch up is a liveness statement, explored by simulation on the real code.',
         "trusted_base": TB_COMMON + [
@@ -278,7 +278,7 @@ PROPS = {
     },
     "C13": {
         "lean_modules": ['HotstuffModel.Properties.C13'],
-        "engines": [{'name': 'netsim'}],
+        "engines": [{'name': 'netsim'}, {'name': 'mempoolsync'}],
         "level": "proof",
         "level_text": 'PARTIAL: machine-checked pipeline lemmas + whole-system simulation on the real code.',
         "trusted_base": TB_COMMON + [
